@@ -65,6 +65,7 @@ def run(ctx):
             if digs[a] != digs[ks[0]]:
                 ctx.violation("config-dependence", {"cfg_a": groups[g][ks[0]], "cfg_b": groups[g][a],
                                                     "finals_a": digs[ks[0]], "finals_b": digs[a]}, True)
+    pairs += runlib.lib_matrix(ctx, rnd)
     ctx.coverage["distinct_nontrivial"] = pairs
     ctx.coverage["rule"] = ("for each seeded model+seed: 6 configurations (threads, checkpoint interval, GVT period, schedule) + 1 repetition; "
                             "non-trivial = pairs of completed runs whose per-LP final state digests (RNG words included) were compared")
